@@ -48,6 +48,7 @@ var c10Alphabet = []impl.Event{
 	{K: impl.EvNS, Local: "p", Value: adoc.URI_V},
 	{K: impl.EvNS, Local: "", Value: adoc.URI_D},
 	{K: impl.EvNS, Local: "q", Value: adoc.URI_U},
+	{K: impl.EvNS, Local: "", Value: ""},
 }
 
 // c10Next applies event e to state s if the Parser contract allows it.
@@ -239,7 +240,7 @@ func C10CheckTree(root store.Cursor, model *adoc.Doc) string {
 }
 
 func C10(c *run.Check) {
-	c.Rule = "explicit-state BFS over the Parser-contract automaton (12-event alphabet); state = legal event prefix canonicalised by dropping no-op surplus end events; every transition replays prefix+event+closing ends into a fresh store.CreateInMemory; non-trivial = distinct resulting model tree"
+	c.Rule = "explicit-state BFS over the Parser-contract automaton (13-event alphabet); state = legal event prefix canonicalised by dropping no-op surplus end events; every transition replays prefix+event+closing ends into a fresh store.CreateInMemory; non-trivial = distinct resulting model tree"
 	maxDepth := 6
 	if !c.Quick() {
 		maxDepth = 8
@@ -336,7 +337,7 @@ func C10(c *run.Check) {
 		}
 		c.Set("large_streams", fmt.Sprint(sizes, " x {flat text, sibling elements, nested(<=1e5)} under a 64 MB goroutine stack limit"))
 	}
-	c.Assume("event alphabet of 12 events; no duplicate prefix/attribute name on one element; namespace and attribute events only inside elements")
+	c.Assume("event alphabet of 13 events; no duplicate prefix/attribute name on one element; namespace and attribute events only inside elements")
 }
 
 // C10Stream is the subprocess body for large streams.
